@@ -1052,6 +1052,10 @@ impl<'a> Renderer<'a> {
                 Item::Module(text) => self.tok(text),
             }
         }
+        // a comment as the very last token: followed by a line break or by the end of input
+        if self.st.comment_pct > 0 && self.st.seed % 3 != 1 {
+            self.out.push_str(if self.st.seed % 2 == 0 { " // end" } else { " /* end */" });
+        }
         if self.st.final_newline {
             self.out.push_str(self.st.nl);
         }
